@@ -16,7 +16,8 @@ theorem replSetsIP_tie : Risor.Generated.C18.replSetsIPAfterError = true := by d
 /-- (*VirtualMachine).Run resumes (resetState = false): the stack and the ip survive between pieces -/
 theorem runKeepsState_tie : Risor.Generated.C18.runResetsState = false := by decide
 
-/-- reloadCode gives the main code a fresh Globals slice and copies the old values into it
+/-- reloadCode gives the main code a fresh Globals slice and copies the old values into it by
+    position — Go's `copy`, the model's `copyInto` in `reloadBySlot` (layer 7)
     (functions loaded earlier keep the old slice: `VM.old`) -/
 theorem reloadCopies_tie : Risor.Generated.C18.reloadCopiesGlobals = true := by decide
 
@@ -34,5 +35,13 @@ theorem startClearsHalt_tie : Risor.Generated.C18.startClearsHaltUnconditionally
 /-- every Run loads — binds to its generation of the globals — every function constant of the main
     code that is not loaded yet (layer 4, `BCtl.next`) -/
 theorem loadsFunctionConstants_tie : Risor.Generated.C18.loadsFunctionConstantsEveryRun = true := by decide
+
+/-- the import cache (layer 6, `importCacheResetEveryRun = false`): `vm.modules` is replaced or cleared
+    by `resetForNewCode` only, which is reached only under `resetState` — and `Run` passes
+    `resetState = false` (`runKeepsState_tie`): no piece boundary touches the cache -/
+theorem importCacheKept_tie :
+    Risor.Generated.C18.importCacheReplacedBy = importCacheReplacedBy ∧
+    Risor.Generated.C18.resetOnlyWhenResetState = true ∧
+    importCacheResetEveryRun = Risor.Generated.C18.runResetsState := by decide
 
 end Risor.C18
